@@ -13,6 +13,8 @@ cEExpsQ == {0 - 1, 2, 3, 4, 7}
 cDtsQ == {50, 100, 101, cInf}
 \* sets for the rows that are instantiated on the real code (binding A)
 cObsFew == {{}, {"occupation"}, {"state"}, {"bitstrings", "entanglement_entropy"}, {"energy", "custom"}, AllTags}
+cObsFewQ == {{}, {"occupation"}, {"energy", "state"}, AllTags}
+cDtsQ3 == {100, 101, cInf}
 cPOne == {5}
 cEOne == {3}
 cDtInf == {cInf}
